@@ -117,3 +117,6 @@ func VerifPoolCap(n int) int {
 
 // VerifNewSmap returns the default single-mutex session storage.
 func VerifNewSmap() SessionStorage { return newSmap() }
+
+// VerifSetPoolHook installs a callback observing every Get/Put of the library's pools.
+func VerifSetPoolHook(f func(kind string, obj any)) { internal.VerifSetPoolHook(f) }
